@@ -162,6 +162,29 @@ func vBuilderJudge[S any](c *vCtx, sys *vBuilderSys[S], seq []int) {
 		c.Violation("search-object-history", "result-differs", sys.Config, names(),
 			fmt.Sprintf("%s: the object executed after every step returned [%s], a fresh object given the same configuration calls [%s]: %s", sys.What, vIDScoreStr(ra), vIDScoreStr(rb), msg))
 	}
+	// object C: configured one statement per option, the returned value discarded
+	// (s.WithK(k); s.WithDocumentIDs(ids...); ...): every option method of a search object
+	// configures the receiver, so C answers like the fluently chained B
+	cobj := sys.Base(newSearch())
+	for _, i := range seq {
+		if st := sys.Menu[i]; st.Do != nil {
+			st.Do(cobj)
+		}
+	}
+	rc, ec := sys.Exec(cobj)
+	c.Evaluations++
+	if (ec != nil) != (eb != nil) {
+		c.Violation("search-object-history", "stepwise-configuration:error-differs", sys.Config, names(),
+			fmt.Sprintf("%s: an object configured one statement per option (return values discarded) returned err=%v, the fluent chain err=%v", sys.What, ec, eb))
+	} else if ec == nil {
+		if sys.Unordered {
+			sort.Slice(rc, func(i, j int) bool { return rc[i].ID < rc[j].ID })
+		}
+		if (sys.Unordered && fmt.Sprint(rc) != fmt.Sprint(rb)) || (!sys.Unordered && vSameRanked(rc, rb) != "") {
+			c.Violation("search-object-history", "stepwise-configuration:result-differs", sys.Config, names(),
+				fmt.Sprintf("%s: an object configured one statement per option (return values discarded) returned [%s], the fluent chain [%s]", sys.What, vIDScoreStr(rc), vIDScoreStr(rb)))
+		}
+	}
 	if len(seq) > 1 {
 		c.Nontrivial(fmt.Sprintf("%s|%s|%v", sys.What, sys.Config, seq))
 	}
